@@ -455,6 +455,8 @@ def enc(t):
         return ["q", f"{t.numerator}/{t.denominator}"]
     if isinstance(t, (tuple, list)):
         return [enc(x) for x in t]
+    if isinstance(t, dict):
+        return {k: enc(v) for k, v in t.items()}
     return t
 
 
